@@ -22,12 +22,14 @@ TEMPLATES = {
     "nested": "def inner_{i}(epochs):\n    return epochs",
     "compr": "squares_{i} = [epochs for epochs in range({i})]",
     "strexpr": "'just a string {i}'",
+    "annassign": "count_{i}: int = len(dataset_name) * epochs",
+    "bareann": "pending_{i}: list",
     "ret": "return (dataset_name, {i})",
     "bareret": "return",
     "parserassign": "argument_parser = wrap_{i}(argument_parser)",
 }
 # occurrences of parameter names that really refer to the parameter (Python scoping), per token
-PARAM_REFS = {"assign": {"dataset_name": 1, "epochs": 1}, "callkw": {"dataset_name": 1}, "loop": {"epochs": 1}, "ifret": {"epochs": 1},
+PARAM_REFS = {"annassign": {"dataset_name": 1, "epochs": 1}, "bareann": {}, "assign": {"dataset_name": 1, "epochs": 1}, "callkw": {"dataset_name": 1}, "loop": {"epochs": 1}, "ifret": {"epochs": 1},
               "nested": {}, "compr": {}, "strexpr": {}, "ret": {"dataset_name": 1}, "bareret": {}, "parserassign": {}}
 SHADOWED = {"nested": {"epochs": 1}, "compr": {"epochs": 1}}     # Name nodes named like a parameter but bound elsewhere
 
